@@ -543,9 +543,9 @@ func run(r *ev.Run) {
 		replay(r, r.ReplayPath)
 		return
 	}
-	nHist := r.Scale(40, 320)
+	nHist := r.Scale(120, 320)
 	nReq := r.Scale(36, 60)
-	r.MinDistinct = r.Scale(6000, 150000)
+	r.MinDistinct = r.Scale(18000, 150000)
 	dir := r.TempDir()
 	stats := &histStats{fpKeys: map[string]struct{}{}, kindSegs: map[string][2]int{}, kindDel: map[string]uint64{}, kindViews: map[string]int{}}
 
